@@ -17,7 +17,9 @@ Step(M, e) == CASE e.op = "add" -> PAdd(M, e.arg)
                 [] OTHER        -> M                      \* "clone": JSON round trip, "obs": observation only
 
 Reason(M0, M1, e) ==
-  IF e.op = "del" /\ e.ret # PDeleteRet(M0, e.arg) THEN "delete-return"
+  IF e.panic THEN "panic"
+  ELSE IF e.op = "del" /\ e.ret # PDeleteRet(M0, e.arg) THEN "delete-return"
+  ELSE IF ~e.obs THEN "ok"                                   \* nothing was observed after this step
   ELSE IF ToSet(e.members) # M1 THEN "foreach-members"
   ELSE IF Len(e.members) # Cardinality(M1) THEN "foreach-duplicate"
   ELSE IF \E i \in 1..Len(e.has) : e.has[i].r # PHas(M1, e.has[i].p) THEN "has"
